@@ -280,10 +280,10 @@ def gen(rng, tier):
 
     def g_txt(tail):
         if rng.random() < 0.4:
-            return rng.choice(hostile) + rng.choice(["", "", tail])
+            return po.pick_hostile(rng) + rng.choice(["", "", tail])
         return rng.choice(words) + rng.choice(["", tail, " zz" if tail == " bad" else "!"])
 
-    n = 6 if tier == "quick" else 60
+    n = 10 if tier == "quick" else 60
     for _ in range(n):
         shape_in = [g_rail() for _ in range(rng.choice([0, 1, 2, 2, 3, 4]))]
         shape_out = [g_rail() for _ in range(rng.choice([0, 1, 1, 2, 3]))]
